@@ -355,7 +355,33 @@ func genC14(r *Run) {
 					a[3] = []byte{0, 0, byte(k >> 8), byte(k)}
 					payload = pktOfArgs(a).ToBytes()
 				}
-				if !(pk == 4 && !v6) {
+				if r.Rng.Intn(8) == 0 || (allValid && k%50 == 7) {
+					// datagrams that fill the servers' 4096-octet read buffer exactly, or miss / exceed it by a little
+					// (a longer one is seen cut to 4096 octets: padding cut short still decodes, an option cut short
+					// does not)
+					L := r.Pick(4095, 4096, 4096, 4097, 4100)
+					if v6 {
+						if need := L - len(payload) - 4; need >= 0 && payload[0] != 12 && payload[0] != 13 {
+							payload = append(payload, tlvb(0xfff1, make([]byte, need))...)
+						}
+					} else if L > len(payload) {
+						payload = append(payload, make([]byte, L-len(payload))...)
+					}
+					r.Count(fmt.Sprintf("datagram_len=%d", len(payload)))
+				}
+				decodable := true
+				if len(payload) > 4096 {
+					if v6 {
+						_, err := dhcpv6.FromBytes(append([]byte{}, payload[:4096]...))
+						decodable = err == nil
+					} else {
+						_, err := dhcpv4.FromBytes(append([]byte{}, payload[:4096]...))
+						decodable = err == nil
+					}
+				}
+				if !decodable {
+					valid--
+				} else if !(pk == 4 && !v6) {
 					expectInv++
 					sender, _ := peerOf(pk, port).(*net.UDPAddr)
 					want := ""
